@@ -131,7 +131,7 @@ func checkC17(c *Ctx) {
 		// the high bound is min(start+B, n): every leaf of High is <= len
 		okEnd := true
 		for _, lf := range leaves(fco, sl.High, sl) {
-			hk := fco.K.Key(lf.Val)
+			hk := lf.KeyIn(fco)
 			if lenK(hk) {
 				continue
 			}
